@@ -121,3 +121,53 @@ package agent
 //@ at call SendToPeer#1 let pieceLen = len($2.Payload)
 //@ after call SendToPeer#1 set c07sent = ite($ret == nil, c07sent + pieceLen, c07sent)
 //@ ensures err == nil && len(data) > 0 ==> c07sent == len(data)
+
+// forwardShellClientData (API client -> remote shell): every message popped
+// from the adapter is passed through shell.SplitMessage with the one-frame
+// plaintext limit; each resulting message is sealed whole and sent as the
+// payload of one STREAM_DATA frame, in order. Byte-stream messages (stdin)
+// therefore never exceed the frame limit, whatever the client wrote.
+
+//@ func (*Agent).forwardShellClientData
+//@ prop C07
+//@ modifies *
+//@ after call PopSend let msgIn = $ret0
+//@ at call shell.SplitMessage assert $0 == msgIn && $1 == 16356
+//@ after call shell.SplitMessage let parts = $ret
+//@ loop 1 invariant -1 <= rangeindex && rangeindex < len(parts)
+//@ at call Encrypt assert 0 <= rangeindex + 1 && rangeindex + 1 < len(parts) && $1 == parts[rangeindex + 1]
+//@ at call Encrypt assert len($1) <= 16356 || (len(msgIn) > 16356 && msgIn[0] != shell.MsgStdin && msgIn[0] != shell.MsgStdout && msgIn[0] != shell.MsgStderr)
+//@ after call Encrypt let ct = $ret0
+//@ at call SendToPeer assert $2.Payload == ct && $2.Type == protocol.FrameStreamData && $2.StreamID == streamID && $2.Flags == 0 && $1 == nextHop
+
+// File transfer senders: each read of n bytes (buffer smaller than the
+// one-frame plaintext limit) is sealed as one message and handed to
+// WriteStreamData in one call, in the order read.
+
+//@ func (*Agent).streamFileContent
+//@ prop C07
+//@ modifies *, c07sent
+//@ at call io.Reader.Read assert len($1) <= 16356 && base($1) == base(buf) && offset($1) == offset(buf)
+//@ after call io.Reader.Read assume 0 <= $ret0 && $ret0 <= len($1)
+//@ after call io.Reader.Read let nRead = $ret0
+//@ at call Encrypt#0 assert base($1) == base(buf) && offset($1) == offset(buf) && len($1) == nRead
+//@ after call Encrypt#0 let ct = $ret0
+//@ at call WriteStreamData#0 assert $3 == ct && len($3) <= 16384 && $1 == peerID && $2 == streamID
+
+//@ func (*Agent).sendFileDownload
+//@ prop C07
+//@ modifies *, c07sent
+//@ at call io.Reader.Read assert len($1) <= 16356 && base($1) == base(buf) && offset($1) == offset(buf)
+//@ after call io.Reader.Read assume 0 <= $ret0 && $ret0 <= len($1)
+//@ after call io.Reader.Read let nRead = $ret0
+//@ at call Encrypt#1 assert base($1) == base(buf) && offset($1) == offset(buf) && len($1) == nRead
+//@ after call Encrypt#1 let ct = $ret0
+//@ at call WriteStreamData#1 assert $3 == ct && len($3) <= 16384 && $1 == fts.PeerID && $2 == fts.StreamID
+
+// Transit: a relayed STREAM_DATA frame carries the received payload and flags unchanged.
+
+//@ func (*Agent).handleStreamData
+//@ prop C07
+//@ modifies *, c07sent
+//@ at call SendToPeer#0 assert $2.Payload == frame.Payload && $2.Flags == frame.Flags && $2.Type == protocol.FrameStreamData
+//@ at call SendToPeer#1 assert $2.Payload == frame.Payload && $2.Flags == frame.Flags && $2.Type == protocol.FrameStreamData
